@@ -582,6 +582,10 @@ class C08(Prop):
         for tpl in slots:
             for ch in ["#", "$", "~", "^", "&", "|", "`", "\\", "\x01", "\xc3\xa9", "@"]:
                 cases.append(("C08e", "parse", (tpl % ch).encode("latin-1") if ch in ("\x01",) else (tpl % ch).encode()))
+            # bytes that other languages count as white space (VT, FF, NEL, NBSP as single bytes) are illegal characters here
+            for ch in ["\x0b", "\x0c", "\x85", "\xa0", "\x1c", "\x7f"]:
+                cases.append(("C08e", "parse", (tpl % (" " + ch + " ")).encode("latin-1")))
+                cases.append(("C08e", "parse", (tpl % ("1 " + ch)).encode("latin-1") if "%s }}" in tpl else (tpl % ch).encode("latin-1")))
         nsoup = {"quick": 8000, "thorough": 100000, "search": 20000}[tier]
         for _ in range(nsoup):
             k = rng.choice([4, 5, 6, 8, 12, 20, 30])
@@ -736,8 +740,9 @@ class C09(Prop):
 
     def boundary(self, ty, recv):
         n = {"str": 3, "arr": 3}.get(ty, 3)
-        return ["-9223372036854775808", str(-n - 1), str(-n), "-1", "0", "1", str(n - 1), str(n), str(n + 1), "1000",
-                "67108865", "4611686018427387904", "9223372036854775807"]
+        # MinInt64 cannot be written as a literal (the digits alone overflow): it comes from the data (iv) or from arithmetic
+        return ["iv", "iv + 1", "0 - 9223372036854775807 - 1", "-9223372036854775807", str(-n - 1), str(-n), "-1", "0", "1",
+                str(n - 1), str(n), str(n + 1), "1000", "67108865", "4611686018427387904", "9223372036854775807"]
 
     def generate(self, rng, tier):
         data = hx(hostile_data())
@@ -1090,7 +1095,7 @@ class C03(Prop):
             els = B(eb)
         return "(each %s %s %s %s)" % (var, arr, B(body), els)
 
-    def forloop(self, rng, var="i"):
+    def forloop(self, rng, var="i", nested=False):
         lo, hi = rng.randrange(-2, 4), rng.randrange(-2, 4)
         up = rng.random() < 0.7
         init = "(init %s %s)" % (var, "(int %d)" % lo if lo >= 0 else "(neg (int %d))" % -lo)
@@ -1105,6 +1110,11 @@ class C03(Prop):
                             "(if (bin eq (var %s) (int 2)) %s (elifs) none)" % (var, B(["(break)"]))])
             body.insert(rng.randrange(len(body) + 1), c)
         els = B([T("NONE")]) if rng.random() < 0.4 else "none"
+        if nested and rng.random() < 0.6:
+            # the @else of a loop that is false at entry acts on the ENCLOSING loop: its control directives must reach it
+            eb = [T("NONE"), rng.choice(["(break)", "(continue)", "(breakif (bool 1))", "(continueif (prop (var loop) first))",
+                                          "(if (bin ge (prop (var loop) index) (int 1)) %s (elifs) none)" % B(["(break)"])]), T("after")]
+            els = B(eb)
         w = rng.random()
         if w < 0.12:      # absent condition: needs a break
             body.append("(breakif (bin ge (var %s) (int 3)))" % var if up else "(breakif (bin le (var %s) (neg (int 3))))" % var)
@@ -1133,11 +1143,11 @@ class C03(Prop):
             k = rng.random()
             if k < 0.55:
                 tpls.append(B([T("<"), self.each(rng, 2, "v"), T(">")]))
-            elif k < 0.85:
+            elif k < 0.8:
                 tpls.append(B([T("<"), self.forloop(rng), T(">")]))
             elif k < 0.93:
-                inner = self.forloop(rng, "j")
-                tpls.append(B(["(each v (var arr3) %s none)" % B([inner, T(";"), "(print (prop (var loop) iter))"])]))
+                inner = self.forloop(rng, "j", nested=True)
+                tpls.append(B(["(each v (var arr3) %s none)" % B([T("["), "(print (var v))", T(":"), inner, T(";"), "(print (prop (var loop) iter))", T("]")])]))
             else:
                 bad = rng.choice(["(int 5)", "(str %s 1)" % hx("abc"), "(var dobj)", "(nil)", "(var zz)", "(bool 1)"])
                 tpls.append(B([T("<"), "(each v %s %s none)" % (bad, B([T("x")])), T(">")]))
@@ -1261,6 +1271,19 @@ class C04(Prop):
                 cases.append((t, "((%s %s))" % (hx("x"), self.DATAV[a])))
                 # the outer binding only comes from the data map
                 cases.append((t.replace("(assign x %s)" % v0, "", 1) if v0 != v1 else t, "((%s %s))" % (hx("x"), self.DATAV[a])))
+        # what a loop body assigns stays visible in the later passes of the same loop (one scope per loop, not per
+        # pass) and is gone after the loop; a loop variable is one variable for all passes, so an element of another
+        # type than the first fails the render
+        for outer in ["(assign seen (int 0))", ""]:
+            for loop in ["(each q (arr (int 1) (int 2) (int 3)) %s none)", "(for (init q (int 1)) (bin le (var q) (int 3)) (inc q) %s none)"]:
+                body = B(["(if (bin gt (var q) (int 1)) %s (elifs) none)" % B(["(print (var seen))"]), T(","), "(assign seen (var q))", T(";")])
+                t = B(([outer] if outer else []) + [loop % body, T("|")] + (["(print (var seen))"] if outer else []))
+                cases.append((t, "-"))
+                if not outer:
+                    cases.append((t, "((%s (int 7)))" % hx("seen")))
+        for els in [("(int 1)", "(str %s 1)" % hx("a")), ("(int 1)", "(float 15 1)"), ("(str %s 1)" % hx("a"), "(int 2)"), ("(bool 1)", "(nil)"),
+                    ("(int 1)", "(int 2)"), ("(arr)", "(arr (int 1))"), ("(arr (int 1))", "(obj (k (int 1)))")]:
+            cases.append((B(["(each q (arr %s %s) %s none)" % (els[0], els[1], B(["(print (var q))", T(",")])), T("|")]), "-"))
         # the reserved name
         for t in [B(["(assign loop (int 1))"]), B(["(each loop (arr (int 1)) %s none)" % B([T("x")])]),
                   B(["(each v (arr (int 1)) %s none)" % B(["(assign loop (int 2))"])]), B([T("ok")])]:
@@ -1917,8 +1940,11 @@ class C17(Prop):
 
     MARK = "PARTIAL-OUTPUT-7731"
 
-    FAULTS = ["{{ secretvar }}", "{{ 1 + 'secretmsg' }}", "{{ n.secretfn() }}", "{{ user.secretprop }}", "{{ n / secretzero }}"]
-    FAULT_EXPRS = ["secretvar", "1 + 'secretmsg'", "n.secretfn()", "user.secretprop", "n / secretzero"]
+    # the last three have messages that hold <, > and &: the debug page shows the message as it is
+    FAULTS = ["{{ secretvar }}", "{{ 1 + 'secretmsg' }}", "{{ n.secretfn() }}", "{{ user.secretprop }}", "{{ n / secretzero }}",
+              "{{ name < 3 }}", "{{ name >= 3 }}", "{{ user['a<b>&c'] }}"]
+    FAULT_EXPRS = ["secretvar", "1 + 'secretmsg'", "n.secretfn()", "user.secretprop", "n / secretzero", "name < 3", "name >= 3",
+                   "user['a<b>&c']"]
 
     def page(self, rng, fail_at, shape="plain"):
         """returns the files of a tree whose page 'pg' fails (fail_at is not None) at a statement position or inside the
@@ -2517,7 +2543,8 @@ class C12(Prop):
         items = []
         for f in fields:
             if f[0].islower():
-                items.append((f, ("(int 99)", [], True)))
+                # an unexported field is not data, whatever its kind: a done channel, a callback, a fixed-size buffer
+                items.append((f, (rng.choice(["(int 99)", "(int 99)", "(chan)", "(func)", "(array2)", "(complex)", "(imap)"]), [], True)))
             else:
                 items.append((f, self.gen(rng, d - 1)))
         paths = []
